@@ -241,6 +241,70 @@ def scale_windows(res, ctx, rng, names):
                 return
 
 
+def shared_front_end(res, ctx, rng, n_threads=4):
+    """ONE front-end object (one set of display settings, colour on as by default) serves several OS threads at once, each
+    listing its own dump from its own stream; the dumps declare the same thread map.  Every dump holds polling loops -
+    the same call with the same result many times in a row - and calls that differ only in their result.  Each thread
+    reads, line by line, what a fresh object prints for its dump single-threaded."""
+    import io
+    import sys
+    import threading
+    from pykdebugparser.pykdebugparser import PyKdebugParser
+    from vlib import gen, wire
+    entries = [(6, 100, b'proc0', b'')]
+    dumps = []
+    for k in range(n_threads):
+        prog = []
+        for _ in range(12):
+            name = rng.choice(('BSC_read', 'BSC_write', 'BSC_pread', 'BSC_lseek', 'BSC_sys_close'))
+            start = (3, 0x1000, 64, 0)
+            end = (rng.choice((0, 0, 4, 6, 9, 26, 35, 106)), rng.randrange(1, 5000), 0, 0)
+            prog += H.syscall(name, start, end) * rng.choice((1, 2, 6))
+        events = H.materialize(H.on_thread(6, prog), t0=0x100000001)
+        dumps.append(wire.v2_file(entries, 8, gen.events_to_records(events)))
+
+    def settings(p):
+        p.color = True
+        for sw in ('show_timestamp', 'show_tid', 'show_process'):
+            setattr(p, sw, False)
+        return p
+    alone = [list(settings(PyKdebugParser()).formatted_traces(io.BytesIO(d))) for d in dumps]
+    shared = settings(PyKdebugParser())
+    failures = []
+    barrier = threading.Barrier(n_threads)
+
+    def worker(k):
+        try:
+            barrier.wait(timeout=30)
+            for _ in range(3):
+                got = [line for line in shared.formatted_traces(io.BytesIO(dumps[k]))]
+                if got != alone[k]:
+                    j = next((i for i, (a, b) in enumerate(zip(got, alone[k])) if a != b), min(len(got), len(alone[k])))
+                    failures.append(f'thread {k}, line {j}: {got[j] if j < len(got) else None!r}, single-threaded '
+                                    f'{alone[k][j] if j < len(alone[k]) else None!r}')
+                    return
+        except Exception as x:                                       # noqa
+            failures.append(f'thread {k} raised {x!r} at {core.short_tb(x)}')
+    threads = [threading.Thread(target=worker, args=(k,), daemon=True) for k in range(n_threads)]
+    old = sys.getswitchinterval()
+    sys.setswitchinterval(1e-5)
+    try:
+        for t in threads:
+            t.start()
+        for t in threads:
+            t.join(timeout=300)
+    finally:
+        sys.setswitchinterval(old)
+    if any(t.is_alive() for t in threads):
+        res.inconclusive.append('threads sharing a front-end object did not finish within the watchdog')
+        return
+    res.count('listings_on_a_front_end_shared_by_threads', n_threads * 3)
+    if failures:
+        res.violation('c10-differs-on-a-front-end-shared-by-threads', f'one front-end object used by {n_threads} OS threads at '
+                      f'once (own dumps and streams, same thread map): {failures[0]} ({len(failures)} thread(s) affected)',
+                      {'files': dumps})
+
+
 def run(ctx):
     res = core.Result()
     import random
@@ -255,6 +319,8 @@ def run(ctx):
     if mine:
         scale_windows(res, ctx, rng, mine)
     stream.run_all(res, 'c10', STREAM_CASES, rng, 'result renderings', ctx)
+    for _ in range(ctx.pick(2, 8)):
+        shared_front_end(res, ctx, rng)
     if ctx.shard == 0:
         res.sample({'decoder': 'BSC_read', 'success': render_outer('BSC_read', (3, 0x1000, 64, 0), (0, 64, 0, 0)),
                     'error': render_outer('BSC_read', (3, 0x1000, 64, 0), (35, 64, 0, 0)),
